@@ -634,22 +634,46 @@ func c10Access(p *Prog, rp *Report) {
 		nt := p.Named("control", typ)
 		m := NewMachine(p, nil)
 		st := &State{Heap: map[int]*HObj{}, Notes: map[string]bool{}}
-		arr := &ArrayV{E: []Val{"up1", "up2"}}
-		aid := st.alloc(types.NewArray(types.Typ[types.String], 2), arr)
-		id := st.alloc(nt, mkStruct(nt, map[string]Val{"Maintainer": "maint", "Uploaders": SliceV{Obj: aid, Len_: 2, Cap: 2}}))
-		st.push(fn, []Val{Ptr{Obj: id}}, nil)
-		out := m.Run(st)
-		if len(out) != 1 || out[0].Status != stRet {
-			r.undecided(key, p.Pos(fn.Pos()), retDesc(out))
+		// the uploader list has spare capacity, as a list grown by append usually has: an accessor that inserts in
+		// place would corrupt the document
+		arr := &ArrayV{E: []Val{"up1", "up2", "", ""}}
+		aid := st.alloc(types.NewArray(types.Typ[types.String], 4), arr)
+		id := st.alloc(nt, mkStruct(nt, map[string]Val{"Maintainer": "maint", "Uploaders": SliceV{Obj: aid, Len_: 2, Cap: 4}}))
+		before := deepRender(st, Ptr{Obj: id}, 0)
+		var results []string
+		undecided := ""
+		for call := 0; call < 2; call++ {
+			st.Status = stRun
+			st.Frames = nil
+			st.push(fn, []Val{Ptr{Obj: id}}, nil)
+			out := m.Run(st)
+			if len(out) != 1 || out[0].Status != stRet {
+				undecided = retDesc(out)
+				break
+			}
+			elems, _, _ := m.sliceElems(st, st.Ret)
+			var got []string
+			for _, e := range elems {
+				s, _ := e.(string)
+				got = append(got, s)
+			}
+			results = append(results, strings.Join(got, ","))
+		}
+		if undecided != "" {
+			r.undecided(key, p.Pos(fn.Pos()), undecided)
 			continue
 		}
-		elems, _, _ := m.sliceElems(out[0], out[0].Ret)
-		var got []string
-		for _, e := range elems {
-			s, _ := e.(string)
-			got = append(got, s)
+		after := deepRender(st, Ptr{Obj: id}, 0)
+		switch {
+		case results[0] != "maint,up1,up2":
+			r.bad(key, p.Pos(fn.Pos()), fmt.Sprintf("Maintainers() of maintainer 'maint' with uploaders up1, up2 is [%s]", results[0]), nil)
+		case results[1] != results[0]:
+			r.bad(key, p.Pos(fn.Pos()), fmt.Sprintf("a second call gives [%s], the first gave [%s]", results[1], results[0]), nil)
+		case after != before:
+			r.bad(key, p.Pos(fn.Pos()), fmt.Sprintf("the accessor changes the document: %s became %s", clip(before, 200), clip(after, 200)), nil)
+		default:
+			r.ok(key, p.Pos(fn.Pos()), "maintainer first, then the uploaders in order; the same on a second call; the document (an uploader list with spare capacity) is left as it was")
 		}
-		r.check(strings.Join(got, ",") == "maint,up1,up2", key, p.Pos(fn.Pos()), "maintainer first, then the uploaders in order", fmt.Sprintf("Maintainers() of maintainer 'maint' with uploaders up1, up2 is %v", got))
 	}
 	// HasArchAll: true iff some architecture is the all triple
 	if fn := p.Method("control", "DSC", "HasArchAll"); fn != nil {
